@@ -194,12 +194,17 @@ def h_exit_codes(ctx):
         return
     ctx.require("exit-1-iff-own-violations", code == (1 if k > 0 else 0), got=code, own=k, foreign=j)
     out = res.output
+    if fmt in ("json", "sarif"):
+        try:
+            doc = json.loads(out)
+        except ValueError:
+            ctx.require("output-is-well-formed-json", False, out=out[:200])
+            return
+        ctx.require("output-is-well-formed-json", isinstance(doc, dict))
     if fmt == "json":
-        doc = json.loads(out)
         ctx.require("json-lists-exactly-own", doc["total"] == k and len(doc["violations"]) == k and
                     all(catalogue.owns(cmd, v["rule_id"]) for v in doc["violations"]), out=out[-300:])
     elif fmt == "sarif":
-        doc = json.loads(out)
         rs = doc["runs"][0]["results"]
         ctx.require("sarif-lists-exactly-own", len(rs) == k and all(catalogue.owns(cmd, r["ruleId"]) for r in rs))
     else:
